@@ -437,7 +437,31 @@ def gen_div(src):
     return small_int_t(src), small_int_t(src), shape
 
 
+def gen_pow_edge(src):
+    """integer power constructed to land at the underflow or overflow edge: the square-and-multiply loop then runs with
+    subnormal (or nearly overflowing) intermediates, where its early exits and the final rounding are decided"""
+    n = src.weighted([(4, src.int(2, 9)), (4, src.int(10, 200)), (3, src.int(201, 20000)), (1, src.int(20001, 400000))])
+    if src.bool(0.5):
+        n |= 1     # odd exponents leave a multiplication after the last squaring
+    # at the edge, and far beyond it: a power that underflows completely still passes through subnormal intermediates
+    target = src.weighted([(4, src.int(-6200, -6140)), (5, src.int(-40000, -6200)), (1, src.int(-6150, -6100)), (2, src.int(6100, 6160)),
+                           (1, src.int(6160, 20000))])
+    digits = src.int(2, 9)
+    coeff = str(src.int(1, 9)) + src.digits(digits - 1)
+    e_base = target // n
+    neg_exp = src.bool(0.35)
+    if neg_exp:
+        e_base = -e_base
+    a = [sgn(src, 0.15), coeff, e_base - (digits - 1)]
+    if not (dec.ETINY <= a[2] <= dec.ETOP):
+        a[2] = max(dec.ETINY, min(dec.ETOP, a[2]))
+    b = ["-" if neg_exp else "", str(n), 0]
+    return a, b, "edge/int"
+
+
 def gen_pow(src):
+    if src.bool(0.3):
+        return gen_pow_edge(src)
     bshape = src.weighted([(6, "int-small"), (3, "half"), (3, "real-small"), (2, "int-mid"), (2, "int-9digits"), (1, "int-huge"), (1, "real-any"), (1, "zero")])
     ashape = src.weighted([(5, "small"), (3, "rand-mid"), (3, "near-one"), (2, "rand"), (2, "pow10"), (1, "zero")])
     if ashape == "small":
@@ -690,6 +714,11 @@ def gen_case(src):
     return {"op": op, "a": fix_t(a), "b": fix_t(b), "shape": shape}
 
 
+def gen_pow_edge_case(src):
+    a, b, shape = gen_pow_edge(src)
+    return {"op": "pow", "a": fix_t(a), "b": fix_t(b), "shape": shape}
+
+
 # ------------------------------------------------------------------------------------------------
 # deterministic boundary grid: every op x every (ordered) pair of the boundary alphabet
 # ------------------------------------------------------------------------------------------------
@@ -750,6 +779,7 @@ def setup(ctx):
                        "scale 6176, scales outside -6111..6176 and non-integer scales are labelled unspecified (finite number or null accepted); "
                        "odd/even of a non-integer: false or null accepted"]
     ctx.p_rand = ctx.register(Part("tuples", gen_case, reqs_case, judge_case))
+    ctx.p_powedge = ctx.register(Part("pow-edge", gen_pow_edge_case, reqs_case, judge_case))
     ctx.p_grid = ctx.register(Part("grid", None, reqs_case, judge_case))
 
 
@@ -757,6 +787,7 @@ def run(ctx):
     ctx.enumerate(ctx.p_grid, grid_cases(ctx), batch=300, name="every op x ordered pairs of the boundary alphabet (%d values)" % len(BOUNDARY),
                   exhaustive=True)
     ctx.forall(ctx.p_rand, ctx.scale(45000, 3000000), batch=300)
+    ctx.forall(ctx.p_powedge, ctx.scale(60000, 3000000), batch=300)
 
 
 if __name__ == "__main__":
